@@ -140,7 +140,7 @@ func (i *inst) Key() string {
 		parts = append(parts, fmt.Sprintf("%v:%v", per, l))
 	}
 	sort.Strings(parts)
-	return fmt.Sprintf("%v closed=%v", parts, i.closed)
+	return fmt.Sprintf("%v closed=%v %s", parts, i.closed, i.s.VExtra())
 }
 
 func canonQuery(m map[uint64][]uint32) string {
